@@ -202,3 +202,32 @@ Definition resolve_str_impl (base ref : str) : option str :=
   if is_valid_iri_ref ref then option_map (protect_result base ref) (resolve_gen true base ref) else None.
 Definition res_str_ok (base ref : str) (obs : option str) : bool :=
   opt_eqb str_eqb (resolve_str_impl base ref) obs.
+
+(* ====================================================================================================
+   the serde entry points (iri/src/_serde.rs)
+   ==================================================================================================== *)
+(* impl Deserialize for Iri<T> / IriRef<T>: `T::deserialize(deserializer)?` then `Self::new(inner)`, whose Err becomes
+   D::Error::invalid_value.  The inner deserialization of a string succeeds and gives the text (serde / the format,
+   third party: tied by the generated cases only), so what is modelled is the validation.  None = Err. *)
+Definition iri_deserialize (s : str) : option str := if iri_new_ok s then Some s else None.
+Definition iriref_deserialize (s : str) : option str := if iriref_new_ok s then Some s else None.
+(* impl Serialize: `self.as_str().serialize(serializer)` -- the text *)
+Definition wrapper_serialize (t : str) : str := t.
+(* Serialize then Deserialize of the value built from an accepted text (None when the text is not accepted) *)
+Definition iri_roundtrip (s : str) : option str :=
+  match iri_deserialize s with Some t => iri_deserialize (wrapper_serialize t) | None => None end.
+Definition iriref_roundtrip (s : str) : option str :=
+  match iriref_deserialize s with Some t => iriref_deserialize (wrapper_serialize t) | None => None end.
+(* #[serde(untagged)] enum { Abs(Iri), Ref(IriRef) }: serde tries the variants in order; true = Abs *)
+Definition untagged_abs_or_ref (s : str) : option (bool * str) :=
+  match iri_deserialize s with
+  | Some t => Some (true, t)
+  | None => match iriref_deserialize s with Some t => Some (false, t) | None => None end
+  end.
+Definition opt_bool_eqb (a b : option bool) : bool :=
+  match a, b with Some x, Some y => Bool.eqb x y | None, None => true | _, _ => false end.
+(* observed: what Deserialize gave for Iri / IriRef, which variant the untagged enum chose, the two round trips *)
+Definition serde_ok (s : str) (de_iri de_ref : option str) (cls : option bool) (rt_iri rt_ref : option str) : bool :=
+  opt_eqb str_eqb (iri_deserialize s) de_iri && opt_eqb str_eqb (iriref_deserialize s) de_ref &&
+  opt_bool_eqb (option_map fst (untagged_abs_or_ref s)) cls &&
+  opt_eqb str_eqb (iri_roundtrip s) rt_iri && opt_eqb str_eqb (iriref_roundtrip s) rt_ref.
